@@ -129,6 +129,13 @@ def cases(tier, seed, shard, nshards):
             k += 1
             if k % nshards == shard:
                 yield {"kind": "large-sync", "tool": name, "n": n}
+    for m in (1, 2, 7):
+        for name in LARGE_TOOLS:
+            if name == "any_iter":
+                continue  # (any_iter awaits awaitable items by contract)
+            k += 1
+            if k % nshards == shard:
+                yield {"kind": "large-sync", "tool": name, "n": m, "payload": "jobs"}
     rng = random.Random(f"C17-{seed}-{shard}")
     n = N_SPECS[tier] // nshards
     names = gen.ITER_TOOL_NAMES + gen.AGG_NAMES
@@ -807,6 +814,17 @@ def run_large_sync(case, stats):
     _ensure_monitor(stats)
     n, tool = case["n"], case["tool"]
     data = range(n)
+    awaited = []
+    if case.get("payload") == "jobs":
+        # the ITEMS happen to be awaitable (prioritised jobs, futures kept in a collection): they are payload, the
+        # user did not hand them over as awaitables - no tool has any business awaiting them
+        class Job(int):
+            def __await__(self):
+                awaited.append(int(self))
+                yield ("job-token", int(self))
+                return self
+
+        data = [Job(i) for i in range(n)]
 
     async def main():
         if tool == "list":
@@ -820,7 +838,7 @@ def run_large_sync(case, stats):
         if tool == "zip":
             return len(await A.list(A.zip(data, data, strict=True)))
         if tool == "reduce":
-            return await A.reduce(lambda a, b: b, data)
+            return await A.reduce(lambda a, b: int(b), data)  # (int(): the result is not one of the items)
         if tool == "accumulate":
             return await A.max(A.accumulate(data))
         if tool == "islice":
@@ -857,7 +875,7 @@ def run_large_sync(case, stats):
         if tool == "compress":
             return len(await A.list(A.compress(data, data)))
         if tool == "starmap":
-            return len(await A.list(A.starmap(lambda a, b: a, zip(data, data))))
+            return len(await A.list(A.starmap(lambda a, b: int(a), zip(data, data))))
         if tool == "dict":
             return len(await A.dict(zip(data, data)))
         if tool == "set":
@@ -875,6 +893,11 @@ def run_large_sync(case, stats):
         coro.close()
         viols.append({"key": f"{tool}/suspends-with-sync-arguments",
                       "msg": f"{tool} over a synchronous input of {n} items suspended, yielding {surfaced!r} to the loop"})
+    if awaited:
+        viols.append({"key": f"{tool}/awaits-payload-items",
+                      "msg": f"{tool} over items that happen to be awaitable: the library awaited items {awaited[:5]}"})
+    if case.get("payload") == "jobs":
+        stats["awaitable_payload_runs"] += 1
     stats["large_sync_runs"] += 1
     stats["large_sync_items"] += n
     _drain_asyncio(viols, f"{tool} n={n}")
